@@ -109,7 +109,7 @@ def _run(ctx):
     for b, p, fr, t in P.calls(recv):
         if b in to_call and b != callbb and roles.is_workspace_fn(P, p):
             g = P.fn(p) or P.fn(generic_path(p))
-            if g is not None and g.path not in seen and common._effect_free(P, g, 0) and not roles.effects(P, g):
+            if g is not None and g.path not in seen and common._effect_free(P, g, 0) and not roles.effects(P, g) and common.check_helper(P, g) is None:
                 seen.add(g.path)
                 fns.append((g, None, "helper"))
                 todo.append(g)
